@@ -1,6 +1,8 @@
 """Hand-shaped statecharts with scripted inputs, run first by every interpreter-family check (DESIGN.md section 4.2, "corpus").
 
-Each entry: (name, YAML text, script).  Script operations: ('clock', d) ('bits', g) ('cbits', c) ('queue', name, {params}) ('exec',).
+Each entry: (name, YAML text, script).  Script operations: ('clock', d) ('bits', g) ('cbits', c) ('queue', name, {params}) ('exec',)
+('carry_on',): the scenario goes on after a ContractError / CodeEvaluationError; ('swap', i): the i-th listener (modulo) is detached and, when it
+is a callable or a recorder, another one of its kind is bound.
 The shapes are the ones that random generation reaches too rarely: conflicts in nested orthogonal states with three
 simultaneous transitions, an external event equal (==) to a pending internal one, notify before send in one block, contract
 conditions reading the configuration in the middle of a micro step, several transitions of one state not declared
@@ -497,10 +499,10 @@ REGION_A = '''          - name: A
                 transitions:
                   - target: a2
                     event: e
-                    guard: (g >> 0) & 1 == 1
+                    guard: (g >> 0) & 1 in {1}
                   - target: a3
                     event: e
-                    guard: (g >> 1) & 1 == 1
+                    guard: "{0: (g >> 1) & 1}[0] == 1"
               - name: a2
               - name: a3
 '''
@@ -511,7 +513,7 @@ REGION_B = '''          - name: B
                 transitions:
                   - target: out
                     event: e
-                    guard: (g >> 2) & 1 == 1
+                    guard: "'{t1}{}{0}' != '' and (g >> 2) & 1 == 1"
 '''
 
 IDLE_VS_ENTRY = '''statechart:
@@ -546,6 +548,79 @@ IDLE_VS_ENTRY = '''statechart:
             guard: after(1) and idle(1)
             contract:
               - after: idle(0) or x >= 0
+'''
+
+GUARD_TURNS_TRUE = '''statechart:
+  name: an eventless transition whose guard becomes true between two calls, without any event or clock change
+''' + PRE + '''  root state:
+    name: root
+    initial: a
+    states:
+      - name: a
+        transitions:
+          - target: b
+            guard: (g >> 0) & 1 == 1
+            action: x = x + 1
+      - name: b
+        transitions:
+          - target: a
+            guard: (g >> 1) & 1 == 0
+            action: y = y + 1
+'''
+
+FAILING_SENDER = '''statechart:
+  name: an action that sends an event and then breaks its postcondition; the client carries on and swaps a bound target
+''' + PRE + '''  root state:
+    name: root
+    initial: a
+    states:
+      - name: a
+        transitions:
+          - event: e0
+            action: "send('e1')\\nx = x + 1"
+            contract:
+              - after: (c >> 0) & 1 == 0
+          - event: e1
+            action: "send('e2', v=x)\\nnotify('m0', w=x)"
+          - event: e2
+            action: y = y + 1
+'''
+
+CONTRACT_ONLY_READS = '''statechart:
+  name: only contract conditions read the configuration in the middle of a micro step; the code reads it afterwards
+''' + PRE + '''  root state:
+    name: root
+    initial: a
+    states:
+      - name: a
+        contract:
+          - after: active('a') or not active('a')
+        transitions:
+          - target: b
+            event: e0
+            contract:
+              - before: active('b') or not active('b')
+              - after: active('a') or not active('a')
+      - name: b
+        initial: b1
+        contract:
+          - before: active('b') or not active('b')
+        transitions:
+          - target: a
+            event: e1
+            action: x = x + (1 if active('b2') else 0) + (10 if active('b') else 0)
+        states:
+          - name: b1
+            contract:
+              - before: active('b1') or not active('b1')
+            transitions:
+              - target: b2
+                event: e0
+                action: y = y + (1 if active('b1') else 0) + (10 if active('b2') else 0)
+          - name: b2
+            on entry: y = y + (100 if active('b1') else 0)
+            contract:
+              - before: active('b1') or not active('b1')
 '''
 
 
@@ -617,6 +692,17 @@ def entries():
     out.append(('idle_vs_entry', IDLE_VS_ENTRY, None,
                 [('exec',), ('clock', 5), q('e0'), ('exec',), ('clock', 3), q('e1'), ('exec',), ('clock', 2), q('e1'), ('exec',), ('clock', 1),
                  q('e0'), ('exec',), q('e0'), ('exec',), ('clock', 7), q('e1'), ('exec',), ('exec',)]))
+
+    out.append(('guard_turns_true', GUARD_TURNS_TRUE, None,
+                [('bits', 4094), ('exec',), ('exec',), ('exec',), ('bits', 4095), ('exec',), ('exec',), ('bits', 4093), ('exec',), ('exec',),
+                 ('bits', 4092), ('exec',), ('bits', 4093), ('exec',), ('exec',)]))
+    out.append(('failing_sender', FAILING_SENDER, None,
+                [('carry_on',), ('exec',), q('e1'), ('exec',), ('exec',), ('cbits', 1), q('e0'), ('exec',), ('cbits', 0), ('swap', 0), ('swap', 1),
+                 ('swap', 2), q('e1'), ('exec',), ('exec',), ('exec',), ('cbits', 1), q('e0'), ('exec',), ('cbits', 0), ('swap', 3), ('exec',),
+                 q('e1'), ('exec',), ('exec',), ('exec',)]))
+
+    out.append(('contract_only_reads', CONTRACT_ONLY_READS, None,
+                [('exec',), q('e0'), ('exec',), q('e0'), ('exec',), q('e1'), ('exec',), q('e0'), ('exec',), q('e1'), ('exec',), ('exec',)]))
 
     def add_noncontiguous(sc):
         from sismic.model import Transition
